@@ -303,6 +303,6 @@ var divFunc = func(t iterator, m, n interface{}) interface{} {
 // modFunc is an 'MOD' operator.
 var modFunc = func(t iterator, m, n interface{}) interface{} {
 	return numericExpr(t, m, n, func(a, b float64) float64 {
-		return float64(int(a) % int(b))
+		return math.Mod(a, b)
 	})
 }
